@@ -49,6 +49,15 @@ def _solve(ctx, fn, *a, **k):
     return v
 
 
+def rotate_input(u, x, form):
+    """U applied to a state in whatever form it was given (density matrix, flat / column / row vector)."""
+    if form.startswith("dm"):
+        return u @ x @ u.conj().T
+    if x.ndim == 2 and x.shape[0] == 1:
+        return (u @ x.reshape(-1)).reshape(1, -1)
+    return u @ x
+
+
 def make_ensemble(rng, r, n=None, d=None):
     d = d or int(rng.integers(2, 5))
     n = n or int(rng.integers(2, 6))
@@ -62,6 +71,11 @@ def make_ensemble(rng, r, n=None, d=None):
         vecs = [gen.unit(rng, d, cplx) for _ in range(n)]
         rhos = [np.outer(v, v.conj()) for v in vecs]
         inp = [v.copy() for v in vecs] if form == "vec1d" else [v.reshape(-1, 1).copy() for v in vecs]
+        if (r // 6) % 3 == 1:  # row vectors (1, d): the third vector form accepted by matrix_ops.to_density_matrix
+            inp, form = [v.reshape(1, -1).copy() for v in vecs], "row"
+        elif (r // 6) % 3 == 2:  # one ensemble, every vector form
+            shapes = [(-1,), (-1, 1), (1, -1)]
+            inp, form = [v.reshape(shapes[(i + r) % 3]).copy() for i, v in enumerate(vecs)], "mixed-vector-forms"
     if cplx and r % 5 == 4:
         # dtype hostility: an ensemble whose FIRST state has a real dtype while later ones are genuinely complex
         if form == "dm":
@@ -147,12 +161,7 @@ def _run_ens(ctx, spec, rng):
         ctx.check("O2:helstrom", None, dev=abs(v - hel), tol=TOLV, sig=sig, nt=nt, mech="state_distinguishability:helstrom-mismatch", detail={"value": v, "helstrom": hel})
     # invariance under a common unitary and under relabelling
     u = gen.haar(rng, d, real=not e["cplx"])
-    if e["form"].startswith("dm"):
-        rot = [u @ x @ u.conj().T for x in e["inp"]]
-    elif e["form"].startswith("col"):
-        rot = [u @ x for x in e["inp"]]
-    else:
-        rot = [u @ x for x in e["inp"]]
+    rot = [rotate_input(u, x, e["form"]) for x in e["inp"]]
     res = _solve(ctx, state_distinguishability, rot, list(p))
     if res is not None:
         ctx.check("O2:unitary-invariant", None, dev=abs(float(np.real(res[0])) - v), tol=TOLV, sig=sig, nt=nt, mech="state_distinguishability:not-unitary-invariant", detail={"value": v, "rotated": res[0]})
@@ -161,8 +170,9 @@ def _run_ens(ctx, spec, rng):
     if res is not None:
         ctx.check("O2:relabelling-invariant", None, dev=abs(float(np.real(res[0])) - v), tol=TOLV, sig=sig, nt=nt, mech="state_distinguishability:not-relabelling-invariant",
                   detail={"value": v, "permuted": res[0], "perm": perm})
-    # unambiguous discrimination (pure states given as vectors)
-    if e["vecs"] is not None:
+    # unambiguous discrimination (pure states given as vectors of one common shape, flat or column: the strategy builds a Gram matrix with
+    # matrix_ops.vectors_to_gram_matrix, which asks for vectors of the same length; row vectors and mixed shapes belong to the min-error path only)
+    if e["vecs"] is not None and not e["form"].startswith(("row", "mixed")):
         _unambiguous(ctx, e, v, rng)
 
 
